@@ -311,6 +311,11 @@ class Explorer:
             self.insts.append(fml)
 
     def oblige(self, name, goal, note=""):
+        # a conjunction is proved conjunct by conjunct: small queries are decided fast and reproducibly, large ones are not
+        if is_z3(goal) and z3.is_and(goal) and goal.num_args() > 1:
+            for i, c in enumerate(goal.children()):
+                self.obls.append(Obligation("%s.%d" % (name, i), self.axioms + self.pc, c, note, insts=self.insts if self.insts else None))
+            return
         self.obls.append(Obligation(name, self.axioms + self.pc, goal, note, insts=self.insts if self.insts else None))
 
     def explore(self, thunk: Callable[["Explorer"], Any]) -> List[Path]:
